@@ -12,21 +12,62 @@ JAR = "/opt/veriftools/tla/tla2tools.jar"
 CM = "/opt/veriftools/tla/CommunityModules-deps.jar"
 
 
-def _java(args, cwd, env=None, timeout=1800, dfs=False, heap="8g"):
+# ---- machine-wide throttle: the JVMs of all checks running on this box share TOKENS worker slots, so that several
+# checks started at once (or one check that starts many models concurrently) queue instead of thrashing the machine and
+# running into their time-outs. Waiting for slots is not counted against the TLC time-out.
+TOKENS = int(os.environ.get("VERIF_TLC_TOKENS", "24"))
+_LOCKDIR = os.path.join(WORK, "locks")
+
+
+def _acquire_slots(n):
+    import fcntl
+    import random
+    n = max(1, min(int(n), TOKENS))
+    os.makedirs(_LOCKDIR, exist_ok=True)
+    mutex = os.open(os.path.join(_LOCKDIR, "mutex"), os.O_CREAT | os.O_RDWR)
+    try:
+        while True:
+            fcntl.flock(mutex, fcntl.LOCK_EX)
+            got = []
+            try:
+                for i in range(TOKENS):
+                    fd = os.open(os.path.join(_LOCKDIR, f"slot_{i}"), os.O_CREAT | os.O_RDWR)
+                    try:
+                        fcntl.flock(fd, fcntl.LOCK_EX | fcntl.LOCK_NB)
+                        got.append(fd)
+                    except OSError:
+                        os.close(fd)
+                    if len(got) == n:
+                        return got
+                for fd in got:
+                    os.close(fd)
+            finally:
+                fcntl.flock(mutex, fcntl.LOCK_UN)
+            time.sleep(0.3 + random.random())
+    finally:
+        os.close(mutex)
+
+
+def _java(args, cwd, env=None, timeout=1800, dfs=False, heap="8g", slots=1):
     e = dict(os.environ)
     if env:
         e.update({k: str(v) for k, v in env.items()})
-    cmd = ["java", "-XX:+UseParallelGC", f"-Xmx{heap}", f"-DTLA-Library={SPEC}"]
+    cmd = ["java", "-XX:+UseParallelGC", "-XX:ParallelGCThreads=2", "-XX:CICompilerCount=2", f"-Xmx{heap}", f"-DTLA-Library={SPEC}"]
     if dfs:
         cmd.append("-Dtlc2.tool.queue.IStateQueue=StateDeque")
     cmd += ["-cp", f"{JAR}:{CM}"] + args
+    held = _acquire_slots(slots)
     t0 = time.time()
     try:
-        p = subprocess.run(cmd, cwd=cwd, env=e, stdout=subprocess.PIPE, stderr=subprocess.STDOUT, timeout=timeout, text=True)
-    except subprocess.TimeoutExpired as ex:
-        out = ex.stdout if isinstance(ex.stdout, str) else (ex.stdout or b"").decode(errors="replace")
-        return -9, out, time.time() - t0
-    return p.returncode, p.stdout, time.time() - t0
+        try:
+            p = subprocess.run(cmd, cwd=cwd, env=e, stdout=subprocess.PIPE, stderr=subprocess.STDOUT, timeout=timeout, text=True)
+        except subprocess.TimeoutExpired as ex:
+            out = ex.stdout if isinstance(ex.stdout, str) else (ex.stdout or b"").decode(errors="replace")
+            return -9, out, time.time() - t0
+        return p.returncode, p.stdout, time.time() - t0
+    finally:
+        for fd in held:
+            os.close(fd)
 
 
 def sany(module_path):
@@ -122,7 +163,7 @@ def run_tlc(module, cfg, name, workers=16, dump=False, coverage=True, timeout=18
     if extra:
         args += extra
     args.append(os.path.basename(mod_path))
-    rc, out, wall = _java(args, cwd=mod_dir, env=env, timeout=timeout, dfs=dfs, heap=heap)
+    rc, out, wall = _java(args, cwd=mod_dir, env=env, timeout=timeout, dfs=dfs, heap=heap, slots=workers)
     st = parse_output(out)
     st.update(rc=rc, wall_s=round(wall, 2), dump_path=dump_path, meta=meta, mode="simulate" if simulate else "exhaustive")
     if keep_out:
